@@ -245,9 +245,12 @@ add("leaf_ident_loop", "adsb_deku", L + "obl_ident_loop", props=["C08", "C01"], 
     domain="all 2^48 six-byte buffers; mechanically extracted character loop of aircraft_identification_read",
     functions=["aircraft_identification_read (slice: character loop)"], timeout=900)
 for _len in range(9):
-    add("leaf_ident_tail_%d" % _len, "adsb_deku", L + "obl_ident_tail", args="%d" % _len, props=["C08", "C01"], unwind=12,
-        domain="all 64^%d code vectors of length %d; mechanically extracted String statement of aircraft_identification_read" % (_len, _len),
-        functions=["aircraft_identification_read (slice: table mapping)"], timeout=900, tier="quick" if _len in (0, 1, 7, 8) else "thorough")
+    for _pos in range(max(_len, 1)):
+        add("leaf_ident_tail_%d_%d" % (_len, _pos), "adsb_deku", L + "obl_ident_tail", args="%d, %d" % (_len, _pos), props=["C08", "C01"], unwind=12,
+            bounded="one symbolic code at a time (all 64 values at position %d of %d), the other codes fixed" % (_pos, _len),
+            domain="code vectors of length %d, position %d symbolic; mechanically extracted String statement of aircraft_identification_read" % (_len, _pos),
+            functions=["aircraft_identification_read (slice: table mapping)"], timeout=900,
+            tier="quick" if (_len, _pos) in ((0, 0), (1, 0), (8, 0), (8, 7), (8, 3), (7, 6)) else "thorough")
 
 add("leaf_icao_text", "adsb_deku", L + "obl_icao_text", props=["C04", "C01"], unwind=10, stubs=[],
     domain="all 2^24 addresses (FromStr half; Display natively)", functions=["<ICAO as FromStr>::from_str"], timeout=900)
